@@ -4,7 +4,9 @@ import fcntl, hashlib, json, os, re, shutil, subprocess, sys, time
 
 VERIF = os.path.dirname(os.path.dirname(os.path.abspath(__file__)))
 REPO = os.environ.get("VERIF_REPO", "/repo")
-WORK = os.path.join(VERIF, ".work")
+# a development run against another tree (VERIF_REPO) keeps its preparations apart: `gc_work` removes the
+# preparations of other repo states, which must not hit a run against /repo going on at the same time
+WORK = os.path.join(VERIF, ".work" if REPO == "/repo" else ".work-alt")
 LEAN = os.path.join(VERIF, "lean")
 HARNESS = os.path.join(VERIF, "harness")
 
@@ -21,6 +23,18 @@ def run(cmd, cwd=None, env=None, check=True, capture=True, timeout=None):
     if check and p.returncode != 0:
         raise RuntimeError("command failed (%d): %s\n%s" % (p.returncode, " ".join(cmd), (p.stdout or "")[-4000:]))
     return p
+
+
+def harness_build(wd, out, pkg, check=True):
+    """go build of a harness command against the tree under verification (the harness go.mod names /repo;
+    with VERIF_REPO set a copy of it with the replace directive redirected is used)."""
+    cmd = ["go", "build"]
+    if REPO != "/repo":
+        mf = os.path.join(wd, "harness.mod")
+        open(mf, "w").write(open(os.path.join(HARNESS, "go.mod")).read().replace("=> /repo", "=> " + REPO))
+        shutil.copy(os.path.join(HARNESS, "go.sum"), os.path.join(wd, "harness.sum"))
+        cmd.append("-modfile=" + mf)
+    return run(cmd + ["-o", out, pkg], cwd=HARNESS, check=check)
 
 
 def repo_key():
@@ -121,7 +135,7 @@ def prepare(tier, seed=1):
         # 1. tools that link the *current* /repo
         bindir = os.path.join(wd, "bin")
         os.makedirs(bindir)
-        run(["go", "build", "-o", os.path.join(bindir, "gengram"), "./cmd/gengram"], cwd=HARNESS)
+        harness_build(wd, os.path.join(bindir, "gengram"), "./cmd/gengram")
         # 2. generator run (Force) on the grammar slice and on testobj
         p = run([os.path.join(bindir, "gengram"), "-root", gm, "-tier", tier, "-seed", str(seed), "-phase", "generate"], cwd=wd, check=False)
         info["generate_rc"] = p.returncode
@@ -188,7 +202,7 @@ def prepare(tier, seed=1):
             if p.returncode != 0:
                 info["errors"].append("target run %s failed: %s" % (runname, (p.stdout or "")[-800:]))
         # 5. go/ssa facts about package-level writes (C20), over the library and every generated package
-        run(["go", "build", "-o", os.path.join(bindir, "globals"), "./cmd/globals"], cwd=HARNESS)
+        harness_build(wd, os.path.join(bindir, "globals"), "./cmd/globals")
         os.makedirs(os.path.join(gm, "extracted"), exist_ok=True)
         p = run([os.path.join(bindir, "globals"), "-dir", gm, "-extra", "gen/decl_ins,gen/fresh/testobj_ins", "-out", os.path.join(gm, "extracted", "Globals.lean")], cwd=gm, check=False)
         if p.returncode != 0:
@@ -217,7 +231,7 @@ def prepare_lib(tier):
         shutil.rmtree(wd, ignore_errors=True)
         os.makedirs(os.path.join(wd, "bin"))
         info = {"key": key, "tier": tier, "work": wd, "errors": [], "genmod": wd}
-        p = run(["go", "build", "-o", os.path.join(wd, "bin", "corr"), "./cmd/libonly"], cwd=HARNESS, check=False)
+        p = harness_build(wd, os.path.join(wd, "bin", "corr"), "./cmd/libonly", check=False)
         if p.returncode != 0:
             info["errors"].append("library harness does not build: " + (p.stdout or "")[-3000:])
         info["corr"] = os.path.join(wd, "bin", "corr")
